@@ -562,7 +562,7 @@ fn verify_three<const P: u8>() {
 
 // vk: tier=thorough; timeout=600; unwindset=memcmp.0:33; flags=--no-assertion-reach-checks; bound=current set {x, y} with arbitrary contents; delta = publish(occupied URI) + update(x) + withdraw(y) with arbitrary stated hashes; models as above
 #[kani::proof]
-#[kani::unwind(5)]
+#[kani::unwind(3)]
 #[kani::stub(rpki::ca::publication::Base64::to_hash, stub_to_hash)]
 #[kani::stub(<CurrentObjectUri as core::convert::From<&uri::Rsync>>::from, model_key_from)]
 #[kani::stub(<[u8]>::eq_ignore_ascii_case, crate::verif_fix::eq_ignore_ascii_case_16)]
@@ -580,7 +580,7 @@ fn c10a_three_publish_foreign() { verify_three::<O>(); }
 /// update replaces, withdraw removes, nothing else changes.
 // vk: tier=thorough; timeout=600; unwindset=memcmp.0:33; flags=--no-assertion-reach-checks; bound=current set {x}; deltas publish(y)+update(x) and publish(y)+withdraw(x), arbitrary contents; models as above
 #[kani::proof]
-#[kani::unwind(5)]
+#[kani::unwind(3)]
 #[kani::stub(rpki::ca::publication::Base64::to_hash, stub_to_hash)]
 #[kani::stub(<CurrentObjectUri as core::convert::From<&uri::Rsync>>::from, model_key_from)]
 #[kani::stub(<[u8]>::eq_ignore_ascii_case, crate::verif_fix::eq_ignore_ascii_case_16)]
@@ -739,7 +739,7 @@ fn delta_with(serial: u64, big: bool) -> DeltaData {
 /// current serial.
 // vk: tier=thorough; timeout=1500; unwindset=memcmp.0:33; flags=--no-assertion-reach-checks; bound=3 deltas (serials 5,4,3), each small (3) or big (12) chosen by the solver, snapshot of one object of size 12; model map
 #[kani::proof]
-#[kani::unwind(6)]
+#[kani::unwind(4)]
 fn x11e_size_truncation_keeps_prefix() {
     let big: [bool; 3] = kani::any();
     let mut deltas = VecDeque::new();
